@@ -175,6 +175,12 @@ func extractZip(root string) (string, map[string]any, error) {
 		return "", nil, fmt.Errorf("unzip: call of unzipZippedFile not recognised")
 	}
 	parentsFirst := iParent >= 0 && iParent < iFile
+	if !parentsFirst {
+		// for archives written by Zip itself (directories listed before their content) this order does not matter, so
+		// the model's refutation (a file listed before its directory) is not a failing input of the round trip: the
+		// shape is reported as not recognised and the check searches for a failing input instead
+		return "", nil, fmt.Errorf("unzip: creation of the parent directory before the file is opened not recognised")
+	}
 	// the walk of Zip writes an entry for every directory below the source (name + "/"), and a file entry under the relative path
 	zipWritesDirs := false
 	if zm := p.method("VFS", "ZipWithContextAndLimitsAndExclusionPatterns"); zm != nil {
